@@ -221,8 +221,8 @@ def _error_problems(e: LiquidError, sources: set[str], out: list[str], where: st
     src = tok.source
     n = len(src)
     s, t = tok.start, tok.stop
-    if isinstance(tok, Token) and tok.type_ == TokenType.EOI:
-        return  # the end-of-input sentinel has no position (index -1) by design
+    if isinstance(tok, Token) and tok.type_ == TokenType.EOI and tok.index < 0 and not src:
+        return  # the end-of-input sentinel has no position (index -1, no source) by design
     if src not in sources:
         out.append(f"{where}: error token's source is not a source of this run")
         return
@@ -484,6 +484,55 @@ def concat_problems(env: Any, head: str, res: ShardResult | None) -> list[str]:
     return problems
 
 
+KEPT_FIRST = [
+    "{% if a %}", "{{ a | }}", "{% assign x = %}", "{{ a", "{% for x in %}", "{{ a['b'", "{% macro %}", "{% case a %}{% when %}",
+    "{% comment %}", "text {% unless a %} more", "{{ 'abc }}", "{% liquid\nif a %}", "{{ a | upcase: }}", "{% capture %}", "{{ 1 +", "x\n\n{% if %}y",
+]
+KEPT_SECOND = [
+    "", "plain text that is rather longer than the first source was, by some margin", "{{ b }}", "{% if b %}x{% endif %}", "{% if b %}",
+    "{{ b | }}", "line one\nline two\n{{ b.c | upcase }}\nline four {% assign z = 1 %}", "{% for i in (1..3) %}{{ i }}{% endfor %}{{ 'tail' }}",
+]
+
+
+def _err_snapshot(e: LiquidError) -> Any:
+    tok = e.token
+    if tok is None:
+        return None
+    try:
+        ctx = e.context()
+    except Exception as x:  # noqa: BLE001
+        ctx = f"{type(x).__name__}"
+    return (tok.start, tok.stop, tok.source, ctx, str(e))
+
+
+def kept_problems(env: Any, first: str, second: str, res: ShardResult | None) -> list[str]:
+    """History of two parses: the error raised for `first` is kept (as a linter collecting diagnostics keeps it) while
+    `second` is tokenized and parsed; what the kept error reports must not move, and must lie inside `first`."""
+    problems: list[str] = []
+    kept: list[tuple[str, LiquidError, Any]] = []
+    for what, fn in (("tokenize", env.tokenize), ("parse", env.from_string)):
+        try:
+            fn(first)
+        except LiquidError as e:
+            kept.append((what, e, _err_snapshot(e)))
+        except Exception:  # noqa: BLE001
+            pass
+    for fn in (env.tokenize, env.from_string):
+        try:
+            fn(second)
+        except Exception:  # noqa: BLE001
+            pass
+    for what, e, snap in kept:
+        if res is not None:
+            res.evaluations += 1
+        now = _err_snapshot(e)
+        if now != snap:
+            problems.append(f"kept-error: the position or text of a {what} error changed after another source was parsed")
+            continue
+        _error_problems(e, {first}, problems, f"kept-{what}-error")
+    return problems
+
+
 def _outcome_class(env: Any, src: str) -> int:
     """What the lexer made of this source: token type sequence or error message (for distinct_outcomes)."""
     import re
@@ -654,6 +703,8 @@ def _plan_impl(tier: str, seed: int):
     for lo, hi in chunks(len(heads), 16):
         shards.append(("concat", lo, hi))
     total += len(heads)
+    shards.append(("kept",))
+    total += len(KEPT_FIRST) * len(KEPT_SECOND)
     meta = {
         "space_size": total,
         "bounds": {"sigma_len": k, "sigma_size": m, "corpus": len(corp), "mutated_corpus": len(corp_m),
@@ -673,6 +724,16 @@ def run_shard(shard) -> ShardResult:
     elif kind == "corpus":
         _, lo, hi = shard
         run_sources(corpus_cached(_TIER[0])[lo:hi], res)
+    elif kind == "kept":
+        for first in KEPT_FIRST:
+            for second in KEPT_SECOND:
+                res.cases += 1
+                for env_name, env in get_envs():
+                    probs = kept_problems(env, first, second, res)
+                    res.outcomes.add(h64([first, probs]))
+                    res.nontrivial.add(h64([first, second]))
+                    for p_ in probs:
+                        res.violation(sig_of(p_), {"env": env_name, "source": first, "then": second, "kept": True}, "a kept error keeps reporting a position inside its own source", p_)
     elif kind == "concat":
         _, lo, hi = shard
         for head in concat_heads()[lo:hi]:
@@ -715,6 +776,10 @@ def replay(case: dict[str, Any]) -> list[dict[str, Any]]:
     res = ShardResult()
     for env_name, env in get_envs():
         if env_name != case["env"]:
+            continue
+        if case.get("kept"):
+            for p in kept_problems(env, case["source"], case["then"], None):
+                res.violation(sig_of(p), case, "a kept error keeps reporting a position inside its own source", p)
             continue
         if case.get("concat"):
             for p in concat_problems(env, case["source"], None):
